@@ -11,13 +11,13 @@ CHECKS = {
    text="Exhaustive enumeration of every string up to length 6 (quick) / 8 (thorough) over nine YAML-indicator alphabets, every sequence of up to 3/4 boundary chunks, the yaml-test-suite corpus (+ one-edit neighbourhood) and size-scaled generators, each run through 6 input back-ends x 3 parser APIs and 4 loaders x 4 entry points on the real code; a universally quantified 'never panics/aborts/spins, linear work' claim can only be sampled by tests, here it is decided for the whole bounded space.",
    design_ref="DESIGN.md §4 C01", note=SWEEP_NOTE),
  "C02": dict(engine="E1 string-space sweep", category="exploration", technique="bounded-exhaustive enumeration of input strings checked by an independent push-down recogniser of the event grammar",
-   text="Every string of the same bounded spaces is parsed (3 back-ends x pull/push) and the delivered events are run through an independent recogniser of the event sentence grammar with the anchor-id discipline; exhaustive within the bounds.",
+   text="Every string of the same bounded spaces is parsed (3 back-ends x pull/push) and the delivered events are run through an independent recogniser of the event sentence grammar with the anchor-id discipline; plus streams with 1 .. 2*10^5 anchors in four shapes (id counter width); exhaustive within the bounds.",
    design_ref="DESIGN.md §4 C02", note=SWEEP_NOTE),
  "C10": dict(engine="E1 string-space sweep", category="exploration", technique="bounded-exhaustive differential enumeration over ten Input back-ends",
    text="Every string of the bounded spaces is parsed with StrInput, BufferedInput and eight contract-conforming inputs (capacities 8/16/64/128 x two raw-read flavours); complete observations (events, spans, error text and marker) must be identical. Exhaustive within the bounds.",
    design_ref="DESIGN.md §4 C10", note=SWEEP_NOTE),
  "C12": dict(engine="E1 string-space sweep", category="exploration", technique="bounded-exhaustive enumeration of inputs; every reported marker compared with an independent line/column model",
-   text="Every marker in every event span and error of every string in the bounded spaces is compared with an independent position model, plus structural span rules and marked-node spans. Exhaustive within the bounds.",
+   text="Every marker in every event span and error of every string in the bounded spaces is compared with an independent position model, plus structural span rules, marked-node spans and the printed form of the error as ScanError, as load_from_str and as YamlDecoder::decode hand it out. Exhaustive within the bounds.",
    design_ref="DESIGN.md §4 C12", note=SWEEP_NOTE),
  "C14": dict(engine="E1 string-space sweep", category="exploration", technique="bounded-exhaustive metamorphic enumeration (LF vs CRLF vs CR) over all inputs of the string spaces",
    text="Every CR-free string with at least one LF in the bounded spaces is parsed under the two break substitutions and compared event by event (values, line/col, error). Exhaustive within the bounds.",
@@ -57,7 +57,7 @@ manifest = {
     {"name": "vp", "path": "harness", "serves_properties": [c["property_id"] for c in checks], "kind_free_text": "one Rust crate: E1 exhaustive string-space enumerator, E2 deviation-bounded choice-sequence explorer over reference models, E3 operation-history explorer (stateright), E4 process-isolated scenario grid; all run the real saphyr code by path dependency"},
   ],
   "checks": checks,
-  "notes": "Every check: exit 0 = held on everything explored, 1 = VIOLATION line(s) with replay file, 2 = MACHINERY-ERROR. Known findings: findings/known_findings.json. VERIF_TIER overrides the tier argument; VERIF_SEED only seeds labelled pseudo-random extension scopes.",
+  "notes": "Every check: exit 0 = held on everything explored, 1 = VIOLATION line(s) with replay file, 2 = MACHINERY-ERROR. Known findings: findings/known_findings.json. VERIF_TIER is the default tier when no tier argument is given; VERIF_SEED only seeds labelled pseudo-random extension scopes.",
   "not_applicable": na,
 }
 json.dump(manifest, open(os.path.join(ROOT, "MANIFEST.json"), "w"), indent=1)
